@@ -119,13 +119,56 @@ _VERUS_QUAL = {"proof", "spec", "exec", "open", "closed", "broadcast", "uninterp
 
 
 def find_items_verus(toks, lo, hi):
+    """like rustlex.find_items, but re-synchronises after Verus fns whose contracts contain braces"""
     old = set(rl._QUAL)
     rl._QUAL |= _VERUS_QUAL
     try:
-        return rl.find_items(toks, lo, hi)
+        items = []
+        k = lo
+        while k < hi:
+            got = rl.find_items(toks, k, hi)
+            if not got:
+                break
+            it = got[0]
+            if it.kind == "fn" and it.body_open >= 0:
+                _fix_fn_body(toks, it, hi)
+            if it.kind in ("impl", "mod", "trait") and it.body_open >= 0:
+                it.children = find_items_verus(toks, it.body_open + 1, it.last)
+            items.append(it)
+            k = it.last + 1
+        return items
     finally:
         rl._QUAL.clear()
         rl._QUAL |= old
+
+
+_ITEM_START = {"pub", "fn", "proof", "spec", "exec", "open", "closed", "impl", "struct", "enum", "mod", "use", "const", "static", "type",
+               "trait", "broadcast", "uninterp", "unsafe", "extern", "tracked", "ghost", "axiom", "global", "assume_specification", "verus", "macro_rules"}
+
+
+def _fix_fn_body(toks, it, hi):
+    """In Verus text a `{` inside requires/ensures (patterns, block expressions) may precede the body: the body is the brace
+    group that is followed by the next item (or the end of the enclosing block)."""
+    k = it.body_open
+    while k >= 0:
+        c = rl.match_close(toks, k)
+        nxt = rl._next_code(toks, c + 1, hi)
+        if nxt is None or toks[nxt].text in ("}", "#") or (toks[nxt].kind == rl.IDENT and toks[nxt].text in _ITEM_START):
+            it.body_open, it.last = k, c
+            return c
+        # not the body: look for the next top-level `{`
+        j = c + 1
+        k = -1
+        while j < hi:
+            t = toks[j]
+            if t.kind == rl.PUNCT and t.text in ("(", "["):
+                j = rl.match_close(toks, j) + 1
+                continue
+            if t.kind == rl.PUNCT and t.text == "{":
+                k = j
+                break
+            j += 1
+    return it.last
 
 
 def _collect(toks, items, prefix, res):
@@ -164,15 +207,21 @@ def make_canary(text, which):
         o = toks[f["body_open"]]
         c = toks[f["last_tok"]]
         tagline = " assert(false); /*vx-canary:%s*/ " % f["name"]
+        # `hide(..)` / `reveal(..)` headers must stay first in a body: put the canary after them
+        ins = o.pos + 1
+        mhead = re.match(r"(\s*(?:hide|reveal|reveal_with_fuel)\s*\([^;]*\)\s*;)+", text[ins:])
+        if mhead:
+            ins += mhead.end()
         if which == "start":
-            edits.append((o.pos + 1, tagline))
+            edits.append((ins, tagline))
         else:
-            edits.append((o.pos + 1, " let vx_canary_r = {"))
+            edits.append((ins, " let vx_canary_r = {"))
             edits.append((c.pos, "};" + tagline + "vx_canary_r "))
         names.append(f["name"])
-    edits.sort(key=lambda e: e[0], reverse=True)
+    edits = [(pos, k, ins) for k, (pos, ins) in enumerate(edits)]
+    edits.sort(key=lambda e: (e[0], e[1]), reverse=True)
     out = text
-    for pos, ins in edits:
+    for pos, _k, ins in edits:
         out = out[:pos] + ins + out[pos:]
     # map canary lines
     linemap = {}
@@ -180,6 +229,27 @@ def make_canary(text, which):
         for m in re.finditer(r"/\*vx-canary:([^*]+)\*/", line):
             linemap.setdefault(i, []).append(m.group(1))
     return out, linemap, names
+
+
+def _canary_cache_key(text):
+    import hashlib
+    return hashlib.sha256(("verus-0.2026.09.13\n" + text).encode()).hexdigest()
+
+
+def _canary_cache_get(outdir, key):
+    """Vacuity (canary) runs are memoised by the hash of the generated canary file: the file is still regenerated from
+    /repo on every run; only the solver run on a byte-identical file is reused. The deciding run is never cached."""
+    p = os.path.join(outdir, "cache", key + ".stderr")
+    try:
+        return open(p).read()
+    except OSError:
+        return None
+
+
+def _canary_cache_put(outdir, key, stderr_text):
+    os.makedirs(os.path.join(outdir, "cache"), exist_ok=True)
+    with open(os.path.join(outdir, "cache", key + ".stderr"), "w") as f:
+        f.write(stderr_text)
 
 
 def scan_trusted(text):
@@ -246,7 +316,7 @@ class VerusUnit:
     def stem(self):
         return self.unit + ("_" + self.variant if self.variant else "")
 
-    def run(self, canaries=True, rlimit=None, timeout=900, threads=8):
+    def run(self, canaries=True, rlimit=None, timeout=900, threads=16):
         t0 = time.time()
         res = UnitResult(self.unit, dict(self.config), os.path.join(self.outdir, self.stem() + ".rs"))
         try:
@@ -296,30 +366,44 @@ class VerusUnit:
                     f.write(ctext)
                 cmd = list(base)
                 cmd[1] = os.path.basename(cpath)
-                cmd += ["--multiple-errors", "2"]
-                can[which] = (cmd, cmap, names)
+                cmd += ["--multiple-errors", "0"]
+                can[which] = (cmd, cmap, names, _canary_cache_key(ctext))
         with ThreadPoolExecutor(max_workers=3) as ex:
             fut_main = ex.submit(_run, main_cmd, self.outdir, timeout)
-            fut_can = {which: ex.submit(_run, c[0], self.outdir, timeout) for which, c in can.items()}
+            fut_can = {}
+            can_out = {}
+            for which, c in can.items():
+                cached = _canary_cache_get(self.outdir, c[3])
+                if cached is not None:
+                    can_out[which] = (0, "", cached, 0.0)
+                else:
+                    fut_can[which] = ex.submit(_run, c[0], self.outdir, timeout)
             rc, out, err, wall = fut_main.result()
-            can_out = {which: f.result() for which, f in fut_can.items()}
+            for which, f in fut_can.items():
+                can_out[which] = f.result()
+                _canary_cache_put(self.outdir, can[which][3], can_out[which][2])
         res.raw_stderr = err
         self._classify(res, w, rc, out, err, logdir)
         for which, (crc, cout, cerr, cwall) in can_out.items():
-            cmd, cmap, names = can[which]
+            cmd, cmap, names, _key = can[which]
             hit = set()
             tool = []
             for d in parse_diags(cerr):
                 if d.get("level") != "error":
                     continue
-                if not d.get("spans") and not d.get("message", "").startswith("aborting due to"):
-                    tool.append(d.get("message", ""))
+                msg_ = d.get("message", "")
+                if msg_.startswith("aborting due to"):
+                    continue
+                if not any(pat in msg_ for pat, _k in OBLIGATION_MSG):
+                    tool.append(msg_[:200])
                 for sp in d.get("spans", []):
                     for ln in range(sp["line_start"], sp["line_end"] + 1):
                         for nm in cmap.get(ln, []):
                             if "assertion failed" in d.get("message", ""):
                                 hit.add(nm)
             bad = [n for n in names if n not in hit]
+            if tool:
+                bad = []   # the canary file did not get as far as verification: reported as a tool error, not as vacuity
             res.canaries[which] = dict(count=len(names), failed_as_expected=len(names) - len(bad), not_failing=bad, tool_errors=tool[:3])
         res.wall_s = time.time() - t0
         return res
@@ -412,7 +496,7 @@ class VerusUnit:
             if kind == "ensures":
                 name = "%s::ensures[%s]" % (fn_name, label or "?")
             elif kind == "pre":
-                name = "%s::pre[%s]@%s" % (fn_name, label or "?", (Lp.ofile + ":" + str(Lp.oline)) if Lp else "?")
+                name = ("%s::pre[%s]" % (fn_name, label)) if label else "%s::pre[?]@%s" % (fn_name, (Lp.ofile + ":" + str(Lp.oline)) if Lp else "?")
             elif kind.startswith("loop-inv"):
                 name = "%s::%s[%s]" % (fn_name, kind, label or "?")
             else:
